@@ -58,6 +58,21 @@ type pipeCase struct {
 	A      respSpec `json:"a_resp"`   // stub's reply to the internal A query
 	PTR    respSpec `json:"ptr_resp"` // stub's reply to the internal in-addr.arpa PTR query
 	PTRGen string   `json:"ptr_gen,omitempty"`
+
+	// Set by the wire part (wire.go): counter / signature prefix, the case a
+	// violation should carry for --replay, and whether an empty zone of the
+	// pipeline under test answers this PTR name ahead of dns64.
+	Ctr       string `json:"-"`
+	SigPrefix string `json:"-"`
+	Shadowed  bool   `json:"shadowed_by_empty_zone,omitempty"`
+	replay    any
+}
+
+func (c *pipeCase) replayCase() any {
+	if c.replay != nil {
+		return c.replay
+	}
+	return c
 }
 
 // ---------------------------------------------------------------- model
